@@ -29,9 +29,9 @@ def sh(cmd, cwd=None, env=None, timeout=3600):
     return p.returncode, p.stdout, p.stderr
 
 
-def clean_copy(dst):
+def clean_copy(dst, rev='HEAD'):
     os.makedirs(dst)
-    rc, _, err = sh(f"git -C /repo archive HEAD | tar -x -C {dst}")
+    rc, _, err = sh(f"git -C /repo archive {rev} | tar -x -C {dst}")
     assert rc == 0, err
 
 
@@ -71,6 +71,7 @@ def main():
     ap.add_argument('--store', action='store_true')
     ap.add_argument('--name')
     ap.add_argument('--skip-baseline', action='store_true')
+    ap.add_argument('--base', default='HEAD', help='commit of /repo the change was written against')
     a = ap.parse_args()
     sd = os.path.join(a.seed_dir, '_seed')
     patch = os.path.join(sd, 'patch.diff')
@@ -80,8 +81,9 @@ def main():
     res = {'property': a.prop, 'seed_dir': a.seed_dir, 'props_checked': props}
     try:
         A, B = os.path.join(tmp, 'orig'), os.path.join(tmp, 'changed')
-        clean_copy(A)
-        clean_copy(B)
+        clean_copy(A, a.base)
+        clean_copy(B, a.base)
+        res['base_commit'] = sh(f"git -C /repo rev-parse --short {a.base}")[1].strip()
         rc, out, err = sh(['patch', '-p1', '-d', B, '-i', patch])
         res['patch_applies'] = rc == 0
         if rc != 0:
@@ -134,6 +136,7 @@ def main():
             meta = {'breaks_property': a.prop, 'written_by': 'independent sub-agent given only the '
                     'property text and a scratch worktree of /repo (HEAD with the fix: commits)',
                     'needs_to_manifest': _needs(name),
+                    'base_commit': res['base_commit'],
                     'what_was_run': {
                         'patch_applies_to_repo_HEAD': res['patch_applies'],
                         'demo_exit_unchanged': ra[0], 'demo_exit_changed': rb[0],
